@@ -3,6 +3,7 @@ package main
 import (
 	"fmt"
 	"io"
+	"os"
 	"strconv"
 	"strings"
 
@@ -24,7 +25,7 @@ func werrClass(err error) string {
 	switch err {
 	case nil:
 		return "nil"
-	case errFail:
+	case errFail, errTimeout, os.ErrDeadlineExceeded:
 		return "dest"
 	case wsutil.ErrNotEmpty:
 		return "notempty"
@@ -210,9 +211,7 @@ func obsTok(os []wobs) string {
 // WH: a history on one Writer
 func runWH(c *ctx, kind string, cfg wcfg, ops string, failAt string) {
 	dst := newRecWriter()
-	if failAt != "-" {
-		dst.failAt, _ = strconv.Atoi(failAt)
-	}
+	dst.setFail(failAt)
 	w, pan := newWriter(dst, cfg)
 	if pan {
 		c.emit("%s %s %s %s -> ctorpanic - -", kind, cfg.tok(), ops, failAt)
